@@ -90,6 +90,19 @@ func Decorate(t *rapid.T, m *mgen.Manifest, allowDoubleA bool) (labels []string)
 	return
 }
 
+// SignAll gives every locator that has no +A hint one (what an API server does
+// when it returns a collection to an authorised reader).
+func SignAll(t *rapid.T, m *mgen.Manifest) {
+	for si := range m.Streams {
+		for bi := range m.Streams[si].Blocks {
+			b := &m.Streams[si].Blocks[bi]
+			if !strings.Contains(b.Hints, "+A") {
+				b.Hints += SigHint(t, "signAll")
+			}
+		}
+	}
+}
+
 // RefRewrite is the reference relation of the property's second sentence: in
 // every locator token (and only there) each hint "+A<rest>" becomes
 // "+R<cluster>-<rest>"; every other byte of the text is kept.
